@@ -261,7 +261,6 @@ class Walker:
         import warnings
         self.locs["<process>:warnings.filters"] = _h(repr([(f[0], str(f[1]), str(f[2]), str(f[3]), f[4])
                                                            for f in warnings.filters]))
-        self.locs["<process>:umask/euid"] = str(os.geteuid())
         return {"mods": mods, "locs": dict(self.locs)}
 
 
@@ -933,6 +932,14 @@ def _view(opts):
     return v
 
 
+def _uses_random(spec):
+    if spec["k"] == "prog":
+        return any(f[0] == "lazy" for t in spec["templates"] for f in t["fields"])
+    if spec["k"] == "yaml":
+        return "random" in spec.get("features", []) or bool(spec.get("random_fields"))
+    return False
+
+
 def run_many(payload):
     """Runs in a pristine process.  payload: specs, api, shared, seed, csv, audit."""
     def on_alarm(signum, frame):
@@ -969,6 +976,13 @@ def run_many(payload):
         if payload["audit"]:
             after = w.snapshot()
             m, wl, un = classify_changes(before, after)
+            if not rnd_same:
+                # the global random generator is re-seeded by the harness before every run; a recipe
+                # without random functions must not draw from it
+                if _uses_random(spec):
+                    wl["global random generator advanced by a recipe that calls random functions"] = 1
+                else:
+                    un.append(["<process>:random.getstate()", "as seeded", "advanced by a recipe without random functions"])
             o["audit"] = {"modelled": m, "whitelisted": wl, "unmodelled": un[:12], "locations": len(after["locs"])}
         out.append(o)
     return out
